@@ -60,6 +60,11 @@ DIRECTED = ["", "()", "(())", "()()", "a()", "()a", "a()b", "(|)", "a||b", "||",
 DIRECTED2 = [r"\\d", r"\\s", r"\\w", r"a\\d", r"\\\d", r"\\\\d", r"(\\|a)\w", r"[\\d]", r"[\\]d", r"\ ", r"a\ b", r"a b", r"[ ]a", r"\d\ ",
              r"\\ ", r"(\\d)*", r"\\d+", r"\\?d"]
 SIGMA2 = "\\d1 sa"
+# the whitespace class against every whitespace character and the letters its escapes are spelled with; braces in sets
+DIRECTED3 = [r"\s", r"\s+", r"[\s]", r"[\sx]", r"[^\s]", r"a\sb", r"(\s|v)*", r"[^\sv]", r"\S" if False else r"[ \t]"]
+SIGMA3 = " \t\n\r\x0b\x0cvntrf"
+DIRECTED4 = [r"[^{}]", r"[^}a]", r"\{[^{}]*\}", r"[{}]", r"[^x-{]", r"[z-~]", r"[^\{]", r"a[{]b", r"[^}]*"]
+SIGMA4 = "{}ax|~"
 
 
 def generate(tier, seed, work, stats):
@@ -76,6 +81,10 @@ def generate(tier, seed, work, stats):
         cases.append(dict(pat=pat, den=[], ast={}, family="directed"))
     for pat in DIRECTED2:
         cases.append(dict(pat=pat, den=[], ast={}, family="directed", sigma=SIGMA2))
+    for pat in DIRECTED3:
+        cases.append(dict(pat=pat, den=[], ast={}, family="directed", sigma=SIGMA3, maxlen=2))
+    for pat in DIRECTED4:
+        cases.append(dict(pat=pat, den=[], ast={}, family="directed", sigma=SIGMA4))
     for c in cases:
         c["tier"] = tier
     return cases
@@ -104,7 +113,7 @@ def replay(case):
     ss = strings(case.get("tier", "thorough"))
     if case.get("sigma"):
         import itertools
-        ss = ["".join(t) for n in range(4) for t in itertools.product(case["sigma"], repeat=n)]
+        ss = ["".join(t) for n in range(case.get("maxlen", 3) + 1) for t in itertools.product(case["sigma"], repeat=n)]
     with warnings.catch_warnings():
         warnings.simplefilter("ignore")
         try:
